@@ -294,8 +294,9 @@ package gocql
 //@   abstract_quo int64
 //@   lean_before
 //@   requires opts != nil && qparams_ok(opts) && 1 <= f.proto && f.proto <= 5
-// a keyspace per request needs v5; with an older version the driver refuses (panics) instead of sending
-//@   requires f.proto <= 4 ==> opts.keyspace == ""
+// a keyspace per request needs v5; with v2..v4 the driver refuses (panics) instead of sending (v1 has the consistency only)
+//@   may_soft_panic
+//@   ensures[C03] soft_panic() == (f.proto >= 2 && f.proto <= 4 && opts.keyspace != "")
 //@   modifies f.buf
 //@   before[C03] writeConsistency: in_loop == -1 && ((writeConsistency_calls == 1 && arg1 == opts.consistency && writeByte_calls + writeUint_calls == 0) || (writeConsistency_calls == 2 && arg1 == Consistency(opts.serialConsistency) && opts.serialConsistency > 0 && writeByte_calls + writeUint_calls == 1 && writeLong_calls == 0))
 // the flags: one bit per optional field, exactly when that field follows
@@ -324,7 +325,7 @@ package gocql
 //@   at_return[C03] f.proto >= 2 ==> (writeInt_calls == 1) == (opts.pageSize > 0) && writeConsistency_calls == ite(opts.serialConsistency > 0, 2, 1) && (writeLong_calls == 1) == (f.proto > 2 && opts.defaultTimestamp)
 //@   at_return[C03] f.proto >= 2 ==> writeString_calls == ite(f.proto > 2 && len(opts.values) > 0 && opts.values[0].name != "", len(opts.values), 0) + ite(opts.keyspace != "", 1, 0)
 //@   running len(f.buf) >= old(len(f.buf)) + 2 && forall(k, 0 <= k && k < old(len(f.buf)), f.buf[k] == old(f.buf[k]))
-//@   ensures len(f.buf) >= old(len(f.buf)) + 2 && forall(k, 0 <= k && k < old(len(f.buf)), f.buf[k] == old(f.buf[k]))
+//@   ensures !soft_panic() ==> len(f.buf) >= old(len(f.buf)) + 2 && forall(k, 0 <= k && k < old(len(f.buf)), f.buf[k] == old(f.buf[k]))
 //@   loop 0: invariant 0 <= i && i <= n && n == len(opts.values)
 //@   loop 0: invariant writeBytes_calls + writeUnset_calls == i
 //@   loop 0: invariant writeString_calls == ite(names, i, 0)
@@ -404,11 +405,15 @@ package gocql
 //@ func (f *framer) writeCustomPayload
 //@   props C03
 //@   count_calls writeBytesMap
-//@   requires customPayload != nil && payload_ok(*customPayload) && (len(*customPayload) > 0 ==> f.proto >= 4)
+//@   requires customPayload != nil && payload_ok(*customPayload)
 //@   modifies f.buf
-//@   before[C03] writeBytesMap: arg1 == *customPayload && len(*customPayload) > 0 && writeBytesMap_calls == 1
+// a payload on a version that has none (before v4) is refused, not dropped and not sent
+//@   may_soft_panic
+//@   explicit_panic_refuses
+//@   ensures[C03] soft_panic() == (len(*customPayload) > 0 && f.proto < 4)
+//@   before[C03] writeBytesMap: arg1 == *customPayload && len(*customPayload) > 0 && writeBytesMap_calls == 1 && f.proto >= 4
 //@   at_return[C03] writeBytesMap_calls == ite(len(*customPayload) > 0, 1, 0)
-//@   ensures len(f.buf) >= old(len(f.buf)) && forall(k, 0 <= k && k < old(len(f.buf)), f.buf[k] == old(f.buf[k]))
+//@   ensures !soft_panic() ==> len(f.buf) >= old(len(f.buf)) && forall(k, 0 <= k && k < old(len(f.buf)), f.buf[k] == old(f.buf[k]))
 
 // STARTUP (opcode 0x01): a [string map] of options. STARTUP and OPTIONS are never compressed (spec section 5):
 // their header is written with the compression bit cleared.
@@ -444,7 +449,8 @@ package gocql
 //@   props C03
 //@   count_calls payload writeHeader writeCustomPayload writeLongString writeUint writeString finish
 //@   requires framer_ok(f) && stream_ok(f, streamID) && len(w.keyspace) <= 65535 && payload_ok(w.customPayload)
-//@   requires (len(w.customPayload) > 0 ==> f.proto >= 4) && (f.proto <= 4 ==> w.keyspace == "")
+//@   may_soft_panic
+//@   ensures[C03] soft_panic() == ((len(w.customPayload) > 0 && f.proto < 4) || (f.proto <= 4 && w.keyspace != ""))
 //@   before[C03] writeHeader: writeHeader_calls == 1 && arg1 == f.flags && arg1 == old(f.flags) | ite(len(w.customPayload) > 0, 0x04, 0) && arg2 == 0x09 && arg3 == streamID
 //@   before[C03] writeCustomPayload: writeHeader_calls == 1 && writeCustomPayload_calls == 1 && writeLongString_calls == 0
 //@   before[C03] writeLongString: writeCustomPayload_calls == 1 && writeLongString_calls == 1 && arg1 == w.statement && writeUint_calls + writeString_calls == 0
@@ -452,7 +458,7 @@ package gocql
 //@   before[C03] writeString: f.proto >= 5 && writeUint_calls == 1 && writeString_calls == 1 && w.keyspace != "" && arg1 == w.keyspace && finish_calls == 0
 //@   before[C03] finish: writeLongString_calls == 1 && writeUint_calls == ite(f.proto >= 5, 1, 0) && writeString_calls == ite(w.keyspace != "", 1, 0) && finish_calls == 1
 //@   running writeHeader_calls == 1 && finish_calls == 0 ==> header_is(f, byte(0x09), streamID) && f.buf[1] == f.flags
-//@   ensures[C03] result == nil ==> header_is(f, byte(0x09), streamID) && length_is(f) && f.buf[1] == f.flags && (f.flags&0x04 != 0) == (old(f.flags)&0x04 != 0 || len(w.customPayload) > 0)
+//@   ensures[C03] !soft_panic() && result == nil ==> header_is(f, byte(0x09), streamID) && length_is(f) && f.buf[1] == f.flags && (f.flags&0x04 != 0) == (old(f.flags)&0x04 != 0 || len(w.customPayload) > 0)
 
 // AUTH_RESPONSE (0x0F): [bytes] token
 //@ func (f *framer) writeAuthResponseFrame
@@ -491,27 +497,29 @@ package gocql
 //@   props C03
 //@   count_calls payload writeHeader writeCustomPayload writeLongString writeQueryParams finish
 //@   requires framer_ok(f) && stream_ok(f, streamID) && payload_ok(customPayload) && params != nil && qparams_ok(params)
-//@   requires (len(customPayload) > 0 ==> f.proto >= 4) && (f.proto <= 4 ==> params.keyspace == "")
+//@   may_soft_panic
+//@   ensures[C03] soft_panic() == ((len(customPayload) > 0 && f.proto < 4) || (f.proto >= 2 && f.proto <= 4 && params.keyspace != ""))
 //@   before[C03] writeHeader: writeHeader_calls == 1 && arg1 == f.flags && arg1 == old(f.flags) | ite(len(customPayload) > 0, 0x04, 0) && arg2 == 0x07 && arg3 == streamID
 //@   before[C03] writeCustomPayload: writeHeader_calls == 1 && writeCustomPayload_calls == 1 && writeLongString_calls == 0
 //@   before[C03] writeLongString: writeCustomPayload_calls == 1 && writeLongString_calls == 1 && arg1 == statement && writeQueryParams_calls == 0
 //@   before[C03] writeQueryParams: writeLongString_calls == 1 && writeQueryParams_calls == 1 && arg1 == params && finish_calls == 0
 //@   before[C03] finish: writeQueryParams_calls == 1 && finish_calls == 1
 //@   running writeHeader_calls == 1 && finish_calls == 0 ==> header_is(f, byte(0x07), streamID) && f.buf[1] == f.flags
-//@   ensures[C03] result == nil ==> header_is(f, byte(0x07), streamID) && length_is(f) && f.buf[1] == f.flags && (f.flags&0x04 != 0) == (old(f.flags)&0x04 != 0 || len(customPayload) > 0)
+//@   ensures[C03] !soft_panic() && result == nil ==> header_is(f, byte(0x07), streamID) && length_is(f) && f.buf[1] == f.flags && (f.flags&0x04 != 0) == (old(f.flags)&0x04 != 0 || len(customPayload) > 0)
 
 //@ func (w *writeQueryFrame) buildFrame
 //@   props C03
 //@   requires framer_ok(framer) && stream_ok(framer, streamID) && payload_ok(w.customPayload) && qparams_ok(w.params)
-//@   requires (len(w.customPayload) > 0 ==> framer.proto >= 4) && (framer.proto <= 4 ==> w.params.keyspace == "")
-//@   ensures result == nil ==> header_is(framer, byte(0x07), streamID) && length_is(framer)
+//@   may_soft_panic
+//@   ensures !soft_panic() && result == nil ==> header_is(framer, byte(0x07), streamID) && length_is(framer)
 
 // EXECUTE (0x0A): [short bytes] id, <query_parameters>; v1: [short bytes] id, [short] n, n [bytes] values, [consistency]
 //@ func (f *framer) writeExecuteFrame
 //@   props C03
 //@   count_calls payload writeHeader writeCustomPayload writeShortBytes writeQueryParams writeShort writeUnset writeBytes writeConsistency finish
 //@   requires framer_ok(f) && stream_ok(f, streamID) && len(preparedID) <= 65535 && customPayload != nil && payload_ok(*customPayload) && params != nil && qparams_ok(params)
-//@   requires (len(*customPayload) > 0 ==> f.proto >= 4) && (f.proto <= 4 ==> params.keyspace == "")
+//@   may_soft_panic
+//@   ensures[C03] soft_panic() == ((len(*customPayload) > 0 && f.proto < 4) || (f.proto >= 2 && f.proto <= 4 && params.keyspace != ""))
 //@   before[C03] writeHeader: writeHeader_calls == 1 && arg1 == f.flags && arg1 == old(f.flags) | ite(len(*customPayload) > 0, 0x04, 0) && arg2 == 0x0a && arg3 == streamID
 //@   before[C03] writeCustomPayload: writeHeader_calls == 1 && writeCustomPayload_calls == 1 && arg1 == customPayload && writeShortBytes_calls == 0
 //@   before[C03] writeShortBytes: writeCustomPayload_calls == 1 && writeShortBytes_calls == 1 && same(arg1, preparedID) && writeQueryParams_calls + writeShort_calls == 0
@@ -522,15 +530,15 @@ package gocql
 //@   before[C03] writeConsistency: f.proto == 1 && writeShort_calls == 1 && writeBytes_calls + writeUnset_calls == len(params.values) && arg1 == params.consistency && writeConsistency_calls == 1 && finish_calls == 0
 //@   before[C03] finish: finish_calls == 1 && writeShortBytes_calls == 1 && ((f.proto > 1 && writeQueryParams_calls == 1) || (f.proto == 1 && writeConsistency_calls == 1))
 //@   running writeHeader_calls == 1 && finish_calls == 0 ==> header_is(f, byte(0x0a), streamID) && f.buf[1] == f.flags
-//@   ensures[C03] result == nil ==> header_is(f, byte(0x0a), streamID) && length_is(f) && f.buf[1] == f.flags && (f.flags&0x04 != 0) == (old(f.flags)&0x04 != 0 || len(*customPayload) > 0)
+//@   ensures[C03] !soft_panic() && result == nil ==> header_is(f, byte(0x0a), streamID) && length_is(f) && f.buf[1] == f.flags && (f.flags&0x04 != 0) == (old(f.flags)&0x04 != 0 || len(*customPayload) > 0)
 //@   loop 0: invariant 0 <= i && i <= n && n == len(params.values) && f.proto == 1 && writeBytes_calls + writeUnset_calls == i && writeShort_calls == 1 && writeConsistency_calls == 0 && writeHeader_calls == 1 && finish_calls == 0 && writeShortBytes_calls == 1 && writeQueryParams_calls == 0
 //@   loop 0: invariant header_is(f, byte(0x0a), streamID) && f.buf[1] == f.flags
 
 //@ func (e *writeExecuteFrame) buildFrame
 //@   props C03
 //@   requires framer_ok(fr) && stream_ok(fr, streamID) && len(e.preparedID) <= 65535 && payload_ok(e.customPayload) && qparams_ok(e.params)
-//@   requires (len(e.customPayload) > 0 ==> fr.proto >= 4) && (fr.proto <= 4 ==> e.params.keyspace == "")
-//@   ensures result == nil ==> header_is(fr, byte(0x0a), streamID) && length_is(fr)
+//@   may_soft_panic
+//@   ensures !soft_panic() && result == nil ==> header_is(fr, byte(0x0a), streamID) && length_is(fr)
 
 // BATCH (0x0D): [byte] type, [short] n, n queries (<kind><string or id><n><value_1>...), [consistency];
 // v3+: flags ([byte], v5: [int]; 0x10 serial consistency, 0x20 timestamp) and the fields they announce.
@@ -541,7 +549,9 @@ package gocql
 //@   props C03
 //@   count_calls payload writeHeader writeCustomPayload writeByte writeShort writeLongString writeShortBytes writeString writeUnset writeBytes writeConsistency writeUint writeLong finish
 //@   abstract_quo int64
-//@   requires framer_ok(f) && stream_ok(f, streamID) && w != nil && batch_ok(w) && payload_ok(customPayload) && (len(customPayload) > 0 ==> f.proto >= 4)
+//@   requires framer_ok(f) && stream_ok(f, streamID) && w != nil && batch_ok(w) && payload_ok(customPayload)
+//@   may_soft_panic
+//@   ensures[C03] soft_panic() == (len(customPayload) > 0 && f.proto < 4)
 //@   before[C03] writeHeader: writeHeader_calls == 1 && arg1 == f.flags && arg1 == old(f.flags) | ite(len(customPayload) > 0, 0x04, 0) && arg2 == 0x0d && arg3 == streamID
 //@   before[C03] writeCustomPayload: writeHeader_calls == 1 && writeCustomPayload_calls == 1 && writeByte_calls == 0
 //@   before[C03] writeByte: in_loop == -1 ==> (writeConsistency_calls == 0 && writeCustomPayload_calls == 1 && writeByte_calls == 1 && arg1 == byte(w.typ) && writeShort_calls == 0) || (writeConsistency_calls == 1 && f.proto >= 3 && f.proto <= 4 && writeByte_calls == len(w.statements) + 2 && (arg1&0x10 != 0) == (w.serialConsistency > 0) && (arg1&0x20 != 0) == w.defaultTimestamp && arg1&0xcf == 0 && writeLong_calls == 0)
@@ -561,7 +571,7 @@ package gocql
 //@   before[C03] finish: finish_calls == 1 && writeShort_calls == len(w.statements) + 1 && writeLongString_calls + writeShortBytes_calls == len(w.statements) && writeConsistency_calls == ite(f.proto >= 3 && w.serialConsistency > 0, 2, 1) && writeLong_calls == ite(f.proto >= 3 && w.defaultTimestamp, 1, 0)
 //@   before[C03] finish: writeUint_calls == ite(f.proto >= 5, 1, 0) && writeByte_calls == len(w.statements) + 1 + ite(f.proto >= 3 && f.proto <= 4, 1, 0)
 //@   running writeHeader_calls == 1 && finish_calls == 0 ==> header_is(f, byte(0x0d), streamID) && f.buf[1] == f.flags
-//@   ensures[C03] result == nil ==> header_is(f, byte(0x0d), streamID) && length_is(f) && f.buf[1] == f.flags && (f.flags&0x04 != 0) == (old(f.flags)&0x04 != 0 || len(customPayload) > 0)
+//@   ensures[C03] !soft_panic() && result == nil ==> header_is(f, byte(0x0d), streamID) && length_is(f) && f.buf[1] == f.flags && (f.flags&0x04 != 0) == (old(f.flags)&0x04 != 0 || len(customPayload) > 0)
 //@   loop 0: invariant 0 <= i && i <= n && n == len(w.statements) && flags == 0 && writeByte_calls == i + 1 && writeShort_calls == i + 1 && writeLongString_calls + writeShortBytes_calls == i
 //@   loop 0: invariant writeHeader_calls == 1 && finish_calls == 0 && writeConsistency_calls == 0 && writeUint_calls == 0 && writeLong_calls == 0 && writeCustomPayload_calls == 1
 //@   loop 0: invariant header_is(f, byte(0x0d), streamID) && f.buf[1] == f.flags
@@ -573,8 +583,9 @@ package gocql
 
 //@ func (w *writeBatchFrame) buildFrame
 //@   props C03
-//@   requires framer_ok(framer) && stream_ok(framer, streamID) && batch_ok(w) && payload_ok(w.customPayload) && (len(w.customPayload) > 0 ==> framer.proto >= 4)
-//@   ensures result == nil ==> header_is(framer, byte(0x0d), streamID) && length_is(framer)
+//@   requires framer_ok(framer) && stream_ok(framer, streamID) && batch_ok(w) && payload_ok(w.customPayload)
+//@   may_soft_panic
+//@   ensures !soft_panic() && result == nil ==> header_is(framer, byte(0x0d), streamID) && length_is(framer)
 
 // ---------------------------------------------------------------------------
 // frame.go: header and message parsers. Inputs are arbitrary bytes; every
@@ -2380,12 +2391,21 @@ package gocql
 //@   trusted classifies the statement by its first keyword (strings/unicode library calls)
 //@   modifies nothing
 
+// A bound value: a NamedValue gives its name and stands for the value inside it; that value is either the
+// "unset" marker (nothing is marshalled, the slot is unset - not null) or is marshalled for the column's type.
 //@ func marshalQueryValue
-//@   props C14
+//@   props C14 C03
+//@   count_calls Marshal
 //@   requires dst != nil
 // bind values that are pointers are non-nil (a *namedValue comes from NamedValue())
 //@   nonnil_payload value
 //@   modifies *dst
+//@   ensures[C03] typeis(value, *namedValue) ==> dst.name == unbox(value, *namedValue).name
+//@   ensures[C03] !typeis(value, *namedValue) ==> dst.name == old(dst.name)
+//@   ensures[C03] typeis(value, *namedValue) && typeis(unbox(value, *namedValue).value, unsetColumn) ==> result == nil && dst.isUnset && Marshal_calls == 0
+//@   ensures[C03] typeis(value, unsetColumn) ==> result == nil && dst.isUnset && Marshal_calls == 0
+//@   ensures[C03] !typeis(value, unsetColumn) && !(typeis(value, *namedValue) && typeis(unbox(value, *namedValue).value, unsetColumn)) ==> Marshal_calls == 1 && dst.isUnset == old(dst.isUnset) && (result == nil ==> same(dst.value, Marshal_ret0))
+//@   before[C03] Marshal: arg0 == typ && (typeis(old(value), *namedValue) ==> arg1 == unbox(old(value), *namedValue).value) && (!typeis(old(value), *namedValue) ==> arg1 == old(value))
 
 //@ func (r *resultMetadata) morePages
 //@   props C15
